@@ -104,10 +104,12 @@ Definition settle_h (j : jst) (i : nat) : option jst :=
                            | Some b => Nat.ltb (rank_of (rk j) b) (rank_of (rk j) a)
                            | None => false end) (seq 0 (length (subs s))) in
     let ordered := fold_right (insert_rank (rk j) s) [] others in
-    match settle_list j ordered with
-    | Some j' => settle 200 j' i
-    | None => settle 200 j i
-    end
+    (* as many of them as leave room for i itself: longest prefix first *)
+    (fix try (k : nat) : option jst :=
+       match (match settle_list j (firstn k ordered) with Some j' => settle 200 j' i | None => None end) with
+       | Some r => Some r
+       | None => match k with O => None | S k' => try k' end
+       end) (length ordered)
   | _, _ => settle 200 j i
   end.
 
@@ -148,7 +150,10 @@ Fixpoint force_unsub (fuel : nat) (j : jst) (i : nat) : option jst :=
     | None => Some j                       (* no such subject: nothing to wait for *)
     | Some sb =>
       if negb (broker sb) then Some j
-      else if draining sb then jstep j (EBrokerUnsub i)
+      else if draining sb then
+        (* per-connection FIFO: nothing the subscription did receive can still be in transit *)
+        if existsb (fun m => Nat.eqb (msub m) i && delivered j (mid m)) (wire (js j)) then None
+        else jstep j (EBrokerUnsub i)
       else match serve (js j) with
            | SRunning => match jstep j ERecvQuit with Some j' => force_unsub f j' i | None => None end
            | SGotQuit => match jstep j EDrainSub with Some j' => force_unsub f j' i | None => None end
@@ -157,30 +162,40 @@ Fixpoint force_unsub (fuel : nat) (j : jst) (i : nat) : option jst :=
     end
   end.
 
-(** everything on the wire reaches the broker *)
-Fixpoint flush_wire (fuel : nat) (j : jst) : option jst :=
+(** the broker routes the head of the wire while [more] holds (it looks at the wire) *)
+Fixpoint flush_while (more : jst -> bool) (fuel : nat) (j : jst) : option jst :=
   match fuel with
   | O => None
   | S f =>
+    if negb (more j) then Some j else
     match wire (js j) with
     | [] => Some j
     | m :: _ =>
       if delivered j (mid m) then
         let n := length (accepted (g (js j))) in
         match jstep j EArrive with
-        | Some j' => if Nat.eqb (length (accepted (g (js j')))) (S n) then flush_wire f j' else None
+        | Some j' => if Nat.eqb (length (accepted (g (js j')))) (S n) then flush_while more f j' else None
         | None => None
         end
       else
         match force_unsub 200 j (msub m) with
         | Some j1 => match jstep (setf j1 F_UNDELIV) EArrive with
-                     | Some j' => flush_wire f j'
+                     | Some j' => flush_while more f j'
                      | None => None
                      end
         | None => None
         end
     end
   end.
+
+(** everything on the wire reaches the broker *)
+Definition flush_wire (fuel : nat) (j : jst) : option jst := flush_while (fun _ => true) fuel j.
+(** ... until request id has arrived *)
+Definition flush_until (id : Z) (fuel : nat) (j : jst) : option jst :=
+  flush_while (fun j => existsb (fun m => mid m =? id) (wire (js j))) fuel j.
+(** ... until nothing that subscription i did receive is in transit *)
+Definition flush_for_sub (i : nat) (fuel : nat) (j : jst) : option jst :=
+  flush_while (fun j => existsb (fun m => Nat.eqb (msub m) i && delivered j (mid m)) (wire (js j))) fuel j.
 
 Definition phase_rank (p : sphase) : nat :=
   match p with SRunning => 0 | SGotQuit => 1 | SFlushed => 2 | SBarrierSet => 3 | SBarrierDone => 4
@@ -201,7 +216,10 @@ Fixpoint force_serve (fuel : nat) (j : jst) (target : nat) : option jst :=
       | Some _ => next (jstep j EDrainSub)
       | None =>
         match find_idx broker (subs s) with
-        | Some i => next (jstep j (EBrokerUnsub i))
+        | Some i => match flush_for_sub i 400 j with
+                    | Some j1 => next (jstep j1 (EBrokerUnsub i))
+                    | None => None
+                    end
         | None => next (jstep j EFlush)
         end
       end
@@ -256,14 +274,14 @@ Definition observe (j : jst) (e : tok) : option jst :=
     let j0 := mkJ (js j) (flags j) ((id, d) :: dl j) (rk j) in
     let j0 := match stop (js j) with TReturned => setf j0 F_AFTERSTOP | _ => j0 end in
     match jstep j0 (EPublish m) with
-    | Some j1 => if d then flush_wire 400 j1 else Some j1
+    | Some j1 => Some j1          (* arrival at the broker is a hidden step, taken when needed *)
     | None => None
     end
   else if k =? 2 then flush_wire 400 j
   else if k =? 3 then
     let i := Z.to_nat (as_int (nth_tok 1 f)) in
     let id := as_int (nth_tok 2 f) in
-    match settle_h j i with
+    match (match flush_until id 400 j with Some j0 => settle_h j0 i | None => None end) with
     | Some j1 =>
       match nth_error (subs (js j1)) i with
       | Some sb =>
@@ -421,3 +439,17 @@ Definition stuck_at (t : tok) : Z :=
   let ql := Z.to_nat (as_int (nth_tok 2 f)) in
   observe_count [mkJ (init nsubs w ql) 0 [] []] (as_list (nth_tok 3 f)) 0.
 Definition judge_diag (cases : list tok) : list Z := map stuck_at cases.
+
+Fixpoint observe_count_det (j : jst) (evs : list tok) (n : Z) : Z :=
+  match evs with
+  | [] => n
+  | e :: r => match observe j e with Some j' => observe_count_det j' r (n + 1) | None => n end
+  end.
+Definition stuck_at_det (t : tok) : Z :=
+  let f := as_list t in
+  let nsubs := Z.to_nat (as_int (nth_tok 0 f)) in
+  let w := Z.to_nat (as_int (nth_tok 1 f)) in
+  let ql := Z.to_nat (as_int (nth_tok 2 f)) in
+  let evs := as_list (nth_tok 3 f) in
+  observe_count_det (mkJ (init nsubs w ql) 0 [] (started_order evs)) evs 0.
+Definition judge_diag_det (cases : list tok) : list Z := map stuck_at_det cases.
